@@ -151,6 +151,25 @@ pub fn gen(tier: &str, seed: u64) -> Gen {
         }
     }
     fams.push(("structured inputs from the generators of C02 (syntax trees), C03/C12 (expression trees, skipped operands), C19 (string and list commands)".to_string(), sn, false));
+    // arguments that are freshly computed typed values (list, float, boolean, dictionary, integer)
+    // whose string nobody has asked for yet, in every argument position that converts its argument
+    let templates = [
+        "incr v X", "lindex {a b c} X", "string range abcdef X 3", "string range abcdef 1 X", "string first b abc X",
+        "string last b abc X", "string compare -length X a b", "string equal -length X a b", "return -level X v",
+        "return -code X v", "if X {set r 1}", "expr {X + 1}", "expr {X ? 1 : 2}", "expr {X in {a b}}", "while X break",
+        "foreach i X {}", "llength X", "dict size X", "dict get X a", "join X ,", "lappend l {*}X", "set a(X) 1",
+        "global X", "proc X {} {}", "rename X {}", "info exists X", "array set arr X", "string map X abc", "unset X",
+        "dict set d X 1", "string length X", "catch X", "error X", "throw X X",
+    ];
+    let builders = ["[list 5]", "[list a b]", "[expr {2.5}]", "[expr {1.0}]", "[expr {1==1}]", "[dict create a 1]", "[string equal a a]", "[list]", "[expr {7}]", "[llength {a b}]"];
+    let mut tn = 0;
+    for t in &templates {
+        for b in &builders {
+            cases.push(entry("eval", &t.replace("X", b)));
+            tn += 1;
+        }
+    }
+    fams.push((format!("{} command templates x {} freshly computed typed arguments", templates.len(), builders.len()), tn, true));
     // histories: earlier scripts (failing ones included) then a hostile call on the same interpreter
     let hist_pool = [
         "proc f {} {f}; catch {f}", "catch {if 1 \"set x \\{\"}", "set errorInfo(x) 1", "unset -nocomplain errorInfo", "rename set _s; rename _s set",
